@@ -56,7 +56,9 @@ pub fn set_sound_key(on: bool) {
 }
 
 fn norm(key: &Key) -> Key {
-    if SOUND_KEY.with(|k| k.get()) {
+    // The recursion flags of a span only mean something at the position they were set for
+    // (nom-recursive clears them as soon as the position differs), so stale ones are blanked.
+    if SOUND_KEY.with(|k| k.get()) && (key.2).1.get_ptr() == key.1 {
         *key
     } else {
         (key.0, key.1, ((key.2).0, RecursiveInfo::new()))
